@@ -282,6 +282,9 @@ func RenderVector(v []sym.ReplayEntry) string {
 		}
 	}
 	for _, e := range v {
+		if e.Kind == "sched" {
+			continue
+		}
 		if e.Kind == "byte" {
 			run = append(run, byte(e.Val))
 			continue
